@@ -13,6 +13,7 @@ import (
 	"reflect"
 	"sort"
 	"strconv"
+	"sync"
 	"unsafe"
 
 	"github.com/welllog/golib/listz"
@@ -1008,6 +1009,88 @@ func tallCase(c *ev.Case) {
 	c.Distinct(ev.Mix(s.hash, 99))
 }
 
+// parallelCase: several goroutines, each working only on its OWN lists (plain and
+// comparator lists, nothing shared by the harness), insert and remove at the same
+// time. Independent objects must not disturb each other (package-level state).
+func parallelCase(c *ev.Case) {
+	g := c.Rng.Range(4, 8)
+	per := c.Rng.Pick(3000, 8000)
+	seeds := make([]uint64, g)
+	for i := range seeds {
+		seeds[i] = c.Rng.Uint64()
+	}
+	errs := make([]string, g)
+	var wg sync.WaitGroup
+	start := make(chan struct{})
+	for t := 0; t < g; t++ {
+		wg.Add(1)
+		go func(t int) {
+			defer wg.Done()
+			defer func() {
+				if p := recover(); p != nil {
+					errs[t] = fmt.Sprintf("panic in a goroutine that only touched its own lists: %v", p)
+				}
+			}()
+			rng := ev.NewRand(seeds[t])
+			<-start
+			a := listz.NewSkipList[int, int]()
+			b := listz.NewSkipListWithCmp[int, int](cmpInt)
+			m := map[int]int{}
+			for i := 0; i < per; i++ {
+				k := rng.Intn(500)
+				if rng.Chance(2, 3) {
+					a.Set(k, i)
+					b.Set(k, i)
+					m[k] = i
+				} else {
+					a.Remove(k)
+					b.Remove(k)
+					delete(m, k)
+				}
+				if i%97 == 0 {
+					// fresh lists keep hitting initialisation while others insert
+					a2 := listz.NewSkipList[int, int]()
+					a2.Set(k, 1)
+					var z listz.SkipList[int, int]
+					z.Set(k, 1)
+				}
+			}
+			if a.Len() != len(m) || b.Len() != len(m) {
+				errs[t] = fmt.Sprintf("Len %d / %d, own model %d", a.Len(), b.Len(), len(m))
+				return
+			}
+			prev := -1
+			n := 0
+			a.Range(func(k, v int) bool {
+				if k <= prev || m[k] != v {
+					errs[t] = fmt.Sprintf("Range out of order or wrong value at key %d", k)
+					return false
+				}
+				prev = k
+				n++
+				return n <= len(m)
+			})
+			if errs[t] == "" && n != len(m) {
+				errs[t] = fmt.Sprintf("Range enumerated %d of %d bindings", n, len(m))
+			}
+		}(t)
+	}
+	close(start)
+	wg.Wait()
+	c.Logf("%d goroutines x %d operations on private lists", g, per)
+	for t, e := range errs {
+		if e != "" {
+			c.Failf("independent-lists-interfere", "goroutine %d: %s", t, e)
+			return
+		}
+	}
+	c.Add("parallel_private_list_goroutines", int64(g))
+	c.Distinct(ev.Mix(uint64(g), uint64(per), seeds[0]))
+	if c.WantSample() {
+		c.Sample(fmt.Sprintf("parallel: %d goroutines, each %d Set/Remove on its own SkipList + SkipListWithCmp, then compared with its own map", g, per))
+	}
+}
+
 func main() {
 	r := ev.New("C02")
 	r.Rule("one case = (list type and key type / comparator, zero value or constructed, height script, key space, seeded operation sequence incl. range queries with present/absent/out-of-range bounds and early-stopping callbacks); every result compared with a sorted-slice model; distinct = hash of the write sequence + variant + height script")
@@ -1018,6 +1101,7 @@ func main() {
 	r.Cases("seq", r.N(40000, 2000000), ev.Opt{HangViolation: true}, seqCase)
 	r.Cases("zero", r.N(3*len(zeroMethods)*2*4, 3*len(zeroMethods)*2*200), ev.Opt{HangViolation: true}, zeroCase)
 	r.Cases("tall", r.N(3000, 150000), ev.Opt{HangViolation: true}, tallCase)
+	r.Cases("parallel-private", r.N(40, 1000), ev.Opt{Workers: 2}, parallelCase)
 	r.Require("full_enumerations", 10000)
 	r.Require("inserts", 100000)
 	r.Require("removals", 100000)
